@@ -68,10 +68,10 @@ PROPS['C14'] = dict(
     bounded=['bounded.conf'],
     level='other',
     design_ref='DESIGN.md §4 C14',
-    technique='deductive: VCs from the real AST of the meson-format substitution callback, do_replacement_meson (single re.sub pass as a ghost-trace fact) and do_define_meson against the documented rendering; regular-expression recognition and the generated header bounded-exhaustive against an independent single-pass scanner',
-    level_text='Proved for all matches / values: the callback renders strings verbatim, integers and booleans through str(), halves backslash runs, unescapes \\@name\\@, reports undefined names; do_replacement_meson performs exactly one re.sub pass and returns its result unchanged (never scanned again); #mesondefine renders unset/bool/int values as documented. Which text the regular expression matches is decided bounded: all templates of <= 5 (quick) / 6 (thorough) symbols x 3 configurations.',
-    level_note='Assumed: re.sub applies the callback once per non-overlapping match left to right; abstract match objects (group languages and top-level alternation facts from the real pattern); str.split/strip uninterpreted. cmake formats, do_conf_str line loops and _dump_c_header are bounded only. Known finding: #mesondefine string values are scanned again.',
-    explanation='kernel clauses proved: substitution callback rendering, single-pass, #mesondefine rendering; regex recognition / cmake formats / line loop / generated header: bounded stand-in',
+    technique='deductive: VCs from the real AST of the meson-format substitution callback, do_replacement_meson (single re.sub pass as a ghost-trace fact) and do_define_meson against the documented rendering; the line loops of both formats (do_conf_str_meson / do_conf_str_cmake: loop invariant against the recursively defined line-by-line meaning), the format dispatch (do_conf_str) and the file layer (do_conf_file over an abstract file system with a ghost effect trace); regular-expression recognition and the generated header bounded-exhaustive against an independent single-pass scanner',
+    level_text='Proved for all matches / values: the callback renders strings verbatim, integers and booleans through str(), halves backslash runs, unescapes \\@name\\@, reports undefined names; do_replacement_meson performs exactly one re.sub pass and returns its result unchanged (never scanned again); #mesondefine renders unset/bool/int values as documented. For templates of ANY number of lines: line k of the output is the rendering of line k of the template and of nothing else, in both formats (a define line by the define renderer, any other line by the placeholder scanner); the format selects the renderer; do_conf_file reads and writes as text without newline translation (newline=\'\' on both open calls), hands the renderer exactly the lines readlines() yields, writes exactly what it returns to dst~ and replaces dst only through replace_if_different. Which text the regular expression matches is decided bounded: all templates of <= 5 (quick) / 6 (thorough) symbols x 3 configurations.',
+    level_note='Assumed: re.sub applies the callback once per non-overlapping match left to right; abstract match objects (group languages and top-level alternation facts from the real pattern); str.split/strip/lstrip uninterpreted; in the line loops the per-line renderers are uninterpreted pure functions (their own contracts are separate; the cmake per-line scanner do_replacement_cmake / do_define_cmake and _dump_c_header are bounded only); file.readlines() is the function fs_lines of the path. Known finding: #mesondefine string values are scanned again.',
+    explanation='kernel clauses proved: substitution callback rendering, single-pass, #mesondefine rendering; line loops of both formats, format dispatch and file layer; regex recognition / cmake per-line scanner / generated header: bounded stand-in',
     not_decided=['cmake ${VAR} / #cmakedefine scanner (index loop with in-place mutation)', 'every other byte copied unchanged: follows from re.sub semantics (assumed) and the bounded scanner comparison'],
 )
 PROPS['C02'] = dict(
@@ -91,7 +91,7 @@ PROPS['C03'] = dict(
     level='other',
     design_ref='DESIGN.md §4 C03, §0.6',
     technique='deductive (kernel): VCs from the real AST of the quoting layer (ninja_quote, NinjaRule._quoter, gcc_rsp_quote, Backend.escape_extra_args) against the quoting decision table; the choice of the response-file quoter at its two sites (region contracts against one table), the live quoting patterns (regex constants); quote/unquote round trips against models of ninja, sh and gcc/cmd response-file readers bounded-exhaustive; custom_target / run_target / test commands of generated projects end to end through the real `meson setup` (stub ninja), read back from build.ninja, the pickled exe wrapper and intro-tests.json',
-    level_text='Proved for all strings: a newline is always an error in ninja_quote, otherwise exactly one substitution with the pattern for the position; the four quoting modes of _quoter (shell quoting first, ninja escaping outermost); response-file quoting doubles backslashes then shell-quotes; escape_extra_args keeps count and order and doubles backslashes exactly in -D//D arguments (loop invariant). That the quoted text is read back as the original argument is checked against MODELS of the external consumers, bounded.',
+    level_text='Proved for all strings: a newline is always an error in ninja_quote, otherwise exactly one substitution with the pattern for the position; the four quoting modes of _quoter (shell quoting first, ninja escaping outermost); response-file quoting doubles backslashes then shell-quotes; escape_extra_args keeps count and order and doubles backslashes exactly in -D//D arguments (loop invariant). That the quoted text is read back as the original argument is checked against MODELS of the external consumers, bounded. On a POSIX host quote_arg is shlex.quote for every word, without exception (shlex.quote itself: standard library, uninterpreted).',
     level_note='Assumed: re.sub / str.replace / shlex.quote as uninterpreted functions; the consumer models (ninja $-evaluation, POSIX sh via shlex, libiberty buildargv) are models of programs outside /repo. NOT decided deductively: which call sites of the 4000-line backend route every argument through these functions (custom_target / run_target / test positions are exercised end to end, bounded; compiler and linker argument positions need a compiler, not available offline); as_meson_exe_cmdline and substitute_values are not under contract.',
     explanation='kernel clauses proved on the quoting functions; round trips against consumer models bounded; call-site coverage of the backend not decided',
     not_decided=['compiler / linker argument positions (c_args, link_args: need a compiler)', 'execution of the pickled exe wrapper (meson_exe.run_exe); its pickle is read back, bounded', '@TEMPLATE@ substitution (substitute_values)'],
@@ -113,7 +113,7 @@ PROPS['C06'] = dict(
     level='other',
     design_ref='DESIGN.md §4 C06',
     technique='deductive (kernel): VCs from the real AST of replace_if_different (ghost effect trace over an abstract file system) and of NinjaBuildElement.write (set iteration modelled as a fresh arbitrary order, sorted(set) as a function of the set); hash-seed independence of a written statement, of the OrderedSet operations and of WHOLE configure runs (real `meson setup --backend=none` of generated projects under several PYTHONHASHSEED values and environment orders, then a reconfigure) bounded; replace_if_different on real files bounded',
-    level_text='Proved for all paths and file contents: replace_if_different performs no replace and no write when the contents are equal (the unchanged output is not touched) and exactly one os.replace(tmp, dst) otherwise. Proved for all dependency sets: the | and || segments written by NinjaBuildElement.write are functions of the SETS, not of their iteration order.',
+    level_text='Proved for all paths and file contents: replace_if_different performs no replace and no write when the contents are equal (the unchanged output is not touched) and exactly one os.replace(tmp, dst) otherwise. Proved for all dependency sets: the | and || segments written by NinjaBuildElement.write are functions of the SETS, not of their iteration order. OptionKey.__lt__/__le__/__gt__/__ge__ define one strict total order (top-level keys first, then lexicographic on (subproject, machine, name)), so sorted() over option keys does not depend on the incoming (set / hash) order.',
     level_note='Assumed: the abstract file system (existence/content as functions of the path at call time), sorted() without key is a function of the set, non-Windows host. NOT decided deductively (bounded only, on four generated projects without compiled targets since no ninja/compiler back end is available offline): every other source of ordering in a configure run (directory listings, other generators), build.ninja as a whole.',
     explanation='kernel: unchanged outputs are not touched; dependency text independent of set iteration order; whole-run determinism not decided',
     not_decided=['byte-identical build.ninja across runs as a whole (no ninja back end offline; intro files and configure_file outputs are compared bounded)', 'independence of readdir order'],
@@ -124,7 +124,7 @@ PROPS['C11'] = dict(
     level='other',
     design_ref='DESIGN.md §4 C11',
     technique='deductive (kernel): VCs from the real AST of set_mode / sanitize_permissions (ghost effect trace: which of chown / chmod / default-permission masking happens, in which order), Installer.should_install and get_destdir_path; resulting mode bits on real files, filter truth table and DESTDIR re-rooting bounded; generated projects installed by the real `meson install --no-rebuild --destdir` and compared with the tree their install rules prescribe (reinstall, uninstall by the log, --dry-run, --tags, --skip-subprojects) bounded',
-    level_text='Proved for all modes, umasks, tags and paths: permissions are the declared install_mode or else the defaults masked by install_umask in every case, ownership is set before permissions, "preserve" changes nothing; a data item is skipped iff its subproject is skipped or tags were requested and its tag is not among them; absolute destinations are re-rooted under DESTDIR, relative ones under the prefix.',
+    level_text='Proved for all modes, umasks, tags and paths: permissions are the declared install_mode or else the defaults masked by install_umask in every case, ownership is set before permissions, "preserve" changes nothing; a data item is skipped iff its subproject is skipped or tags were requested and its tag is not among them; absolute destinations are re-rooted under DESTDIR, relative ones under the prefix. install_emptydir (unrolled for 0, 1 and 2 entries of arbitrary content): every selected entry gets its destination computed from (destdir, prefix, path), the directory created with exist_ok and then set_mode(destination, its install_mode, install_umask) — also when the directory exists already.',
     level_note='Assumed: set_chmod / set_chown / is_executable / path_has_root / destdir_join as effects or uninterpreted functions (pathlib and the OS are outside the contracts; checked bounded on POSIX paths and real files); bit operations uninterpreted. NOT decided deductively (bounded only, on real installations of generated projects without built targets): confinement of every write, exactness of the installed tree, install log vs uninstall, dry-run, idempotence (effects of do_copyfile / do_copydir / shutil on a real file system).',
     explanation='kernel: permission decision, tag/subproject filter and DESTDIR branch proved; whole-tree clauses not decided',
     not_decided=['only beneath DESTDIR for every file operation', 'exactly the specified files/dirs/symlinks', 'uninstall removes exactly the logged paths', '--dry-run writes nothing', 'installing twice equals installing once'],
@@ -135,7 +135,7 @@ PROPS['C10'] = dict(
     level='other',
     design_ref='DESIGN.md §4 C10',
     technique='deductive (kernel): VCs from the real AST of the wrap resolver (check_hash, _get_file_internal, one download attempt, the patch step of _resolve as region contracts with a ghost effect trace and exceptional postconditions) the whole of _download and check_can_download (nothing is fetched under nodownload), and the candidate order of dependency(); the real Resolver on local archives and file:// URLs bounded; the dependency() policy over the cross product of circumstances through the real `meson setup` (pkg-config file as system dependency, local subproject as fallback) bounded',
-    level_text='Proved for all wrap files / paths: check_hash returns normally only if the file hashes to the recorded value (or none is recorded and none required); every path handed out by _get_file_internal passed check_hash or _download on that call; a download attempt leaves its try block normally only with a matching hash; WHATEVER exception the patch or diff step raises, the unpacked directory is removed before it propagates; candidates are tried in the documented order with the system lookup omitted iff the fallback is forced and known.',
+    level_text='Proved for all wrap files / paths: check_hash returns normally only if the file hashes to the recorded value (or none is recorded and none required); every path handed out by _get_file_internal passed check_hash or _download on that call; a download attempt leaves its try block normally only with a matching hash; WHATEVER exception the patch or diff step raises, the unpacked directory is removed before it propagates; candidates are tried in the documented order with the system lookup omitted iff the fallback is forced and known. In the verdict statement of DependencyFallbacksHolder.lookup (1-2 names, either machine): a found dependency is returned AND recorded in dependency_overrides under the identifier of every name of the call unless an entry exists, which is kept; nothing else changes; the recorded override is (dep, current node, explicit=False).',
     level_note='Assumed: hashlib/file reading (sha256_of abstract), os/pathlib calls as effects or uninterpreted functions, methods called on self as effects that may raise. Region contracts verify one statement of a large function (stated per function in the evidence). NOT decided deductively: the end-to-end decision table of dependency() (find_external_dependency, version matching, allow_fallback) — checked on the cross product of circumstances through the real meson setup, bounded.',
     explanation='kernel: hash check dominates use, cleanup on failed patch, candidate order proved; end-to-end fallback policy not decided',
     not_decided=['the dependency() policy as a proof (bounded: the full cross product through the real meson setup in the thorough tier, a sample in the quick tier)', 'lookup sequences of length 3', 'fault injection at each step of fetch -> verify -> unpack -> patch -> diff beyond the cases listed under coverage.bounded'],
@@ -157,7 +157,7 @@ PROPS['C01'] = dict(
     level='other',
     design_ref='DESIGN.md §4 C01',
     technique='deductive (kernel): VCs from the real AST of interpreter primitives (integer division/modulo, array + / += and indexing) and of the and/or evaluation methods (ghost effect trace: which operand is evaluated when); small programs through the real `meson setup --backend=none` against a reference evaluator bounded',
-    level_text='Proved for all operands: / and % are floor division and sign-of-divisor modulo with division by zero an error; array + and += build a NEW array and change neither operand (value semantics: frame clause on the held list and non-identity of the result); indexing accepts exactly [-n, n) and counts negative indices from the end; in `a and b` / `a or b` the left operand is evaluated first and once and the right one iff the left does not decide.',
+    level_text='Proved for all operands: / and % are floor division and sign-of-divisor modulo with division by zero an error; array + and += build a NEW array and change neither operand (value semantics: frame clause on the held list and non-identity of the result); indexing accepts exactly [-n, n) and counts negative indices from the end; in `a and b` / `a or b` the left operand is evaluated first and once and the right one iff the left does not decide. range(): an error iff start < 0, stop < start or step < 1 (an explicit step of 0 included), otherwise exactly the progression (start, stop, step) is handed to the range object.',
     level_note='Assumed: the typed_operator decorators check the operand type before the call; evaluate_statement / _holderify / operator_call(BOOL) as opaque effects. NOT decided: the composition — that whole programs evaluate as the reference prescribes (precedence ladder conformance, subdir/subproject scoping, the str/dict method tables, escape decoding) is only exercised by the bounded program layer.',
     explanation='kernel clauses proved on the primitives and the short-circuit evaluation; whole-program semantics is a bounded stand-in',
     not_decided=['precedence and associativity as a proof over the parser ladder', 'subdir() / subproject() variable scoping', 'documented str/array/dict/int/bool method tables', 'escape decoding table'],
